@@ -113,7 +113,7 @@ impl<'a> Run<'a> {
             .stdout(Stdio::piped())
             .stderr(Stdio::piped())
             .env("NO_COLOR", "1")
-            .env_remove("RUST_BACKTRACE")
+            .env("RUST_BACKTRACE", "0")
             .env_remove("RUST_LOG");
         if let Some(c) = self.cwd {
             cmd.current_dir(c);
